@@ -62,6 +62,33 @@ def wire_name(rng, depth=0):
     return out
 
 
+def plain_name(total):
+    """bytes of an uncompressed name of exactly `total` octets (total >= 3), labels 'a'*k"""
+    out = []
+    rem = total - 1
+    while rem > 0:
+        s = min(63, rem - 1)
+        if rem - 1 - s == 1:      # would leave a 1-octet hole: shorten
+            s -= 1
+        out += [s] + [97 + (len(out) % 3)] * s
+        rem -= s + 1
+    return out + [0]
+
+
+def wns_chain(total1, extra, hops, upper=False):
+    """part1 = plain name of total1 octets at offset 12; each further part = a label of `extra`/hops.. octets plus a
+    pointer to the start of the previous part, so the expanded length is total1 + sum(labels+1)"""
+    parts = [plain_name(total1)]
+    off = 12
+    for h in range(hops):
+        lab = extra if h == 0 else 1
+        body = ([lab] + [66 if upper else 98] * lab) if lab > 0 else []
+        body += [0xC0 | (off >> 8), off & 0xFF]
+        off = off + len(parts[-1]) + 4
+        parts.append(body)
+    return ",".join(hexb(p) for p in parts)
+
+
 def generate(rng, tier):
     n = 4000 if tier == "quick" else 120000
     cases = []
@@ -93,6 +120,11 @@ def generate(rng, tier):
                 s += l + [46]
             add("name DS " + nums(s))
             add("name DS2 " + nums([c - 32 if i % 2 else c for i, c in enumerate(s)]))
+    # wire names ending in pointers into earlier names, totals sweeping the 255 limit (exhaustive at the boundary)
+    for total1 in [200, 250, 253, 254, 255]:
+        for extra in range(0, 9):
+            for hops in (1, 2):
+                cases.append("name WNS " + wns_chain(total1, extra, hops))
     for ls in [[], [[]], [[], []], [[97], []], [[97]], [[], [97]], [[97], [], [98], []], [[97], [], []]]:
         add("name FL " + labtok(ls))
     for s in ["", ".", "..", "a", "a.", ".a", "a..b", "a.b.", "A.b", "a.b..", " ", "é.", "a" * 63 + ".", "a" * 64 + ".", "é" * 31 + "a.", "é" * 32 + ".", "*.a.", "@"]:
@@ -136,8 +168,16 @@ def generate(rng, tier):
             if rng.random() < 0.3:
                 a = [[c - 32 if 97 <= c <= 122 else c for c in l] for l in a]
             add("name SUB %s %s" % (labtok(a), labtok(b)))
-        elif r < 0.92:
+        elif r < 0.84:
             add("name WN " + hexb(wire_name(rng)))
+        elif r < 0.92:
+            if rng.random() < 0.7:
+                add("name WNS " + wns_chain(rng.choice([3, 10, 100, 200, 240, 250, 254, 255]), rng.randint(0, 12), rng.randint(1, 3), rng.random() < 0.3))
+            else:
+                # pointer into the middle of an earlier name / forward / self
+                p1 = plain_name(rng.choice([5, 20, 130]))
+                tgt = 12 + rng.choice([0, 1, len(p1) - 1, len(p1), len(p1) + 4, len(p1) + 5, 300])
+                add("name WNS %s,%s" % (hexb(p1), hexb([2, 120, 121, 0xC0 | (tgt >> 8), tgt & 0xFF])))
         else:
             pool = [[[]], [[97], []], [[98], [97], []], [[99], []], [[97], [99], []]]
             apexes = rng.sample(pool, rng.randint(1, 4))
@@ -179,6 +219,27 @@ def oracle(case, impl, model):
             w = wf(*parse_name(impl[5:]))
             if w:
                 return ("ill-formed-name", "constructor %s returned an ill-formed name: %s" % (op, w))
+        if op == "WNS" and impl.startswith("Ok:"):
+            for t in impl[3:].split(","):
+                w = wf(*parse_name(t))
+                if w:
+                    return ("ill-formed-name", "wire decoder returned an ill-formed name: %s" % w)
+        if op in ("DS", "DS2") and toks[2] != "":
+            # reference reading of dotted text: "." or dot-terminated non-empty chunks within the limits
+            cps = [] if toks[2] == "_" else [int(x) for x in toks[2].split(",")]
+            txt = "".join(chr(c) for c in cps)
+            if txt == ".":
+                want = True
+            else:
+                chunks = txt.split(".")
+                want = chunks[-1] == "" and all(c != "" for c in chunks[:-1])
+                enc = [c.encode("utf-8", "surrogatepass") for c in chunks[:-1]]
+                want = want and all(len(e) <= 63 for e in enc) and (1 + sum(len(e) + 1 for e in enc)) <= 255
+            got = impl.split("|")[0].startswith("Some:")
+            if got and not want:
+                return ("accepts-invalid", "from_dotted_string accepted text violating the limits (empty label / too long)")
+            if want and not got:
+                return ("rejects-valid", "from_dotted_string rejected well-formed dotted text")
         if op == "WN" and impl.startswith("Ok:"):
             w = wf(*parse_name(impl[3:]))
             if w:
